@@ -241,14 +241,22 @@ def main():
         A = onp.array([float(rng.randint(-3, 3)) for _ in range(n)]).reshape(shape)
         A.setflags(write=False)
         W = onp.array([float(rng.randint(1, 3)) for _ in range(n)]).reshape(shape)
-        kinds = [rng.choice(["full-slice", "ellipsis", "dense", "scaled", "square", "full-slice", "empty-tuple", "rev-rev"])
+        kinds = [rng.choice(["full-slice", "ellipsis", "dense", "scaled", "square", "full-slice", "empty-tuple", "rev-rev",
+                             "zero", "zero", "gather", "gather", "masked-off"])
                  for _ in range(rng.randint(2, 6))]
+        gidx = tuple(onp.array([rng.randrange(d) for _ in range(n)]).reshape(shape) for d in shape)   # same shape, repeats
         left = rng.random() < 0.5
 
-        def f(a, kinds=kinds, W=W, left=left):
+        def f(a, kinds=kinds, W=W, left=left, gidx=gidx):
             ts = []
             for kd in kinds:
-                if kd == "full-slice":
+                if kd == "zero":                      # a consumer whose cotangent contribution is zero in every entry
+                    ts.append(a * 0.0)
+                elif kd == "masked-off":
+                    ts.append(anp.where(onp.zeros(shape, bool), a, 0.0))
+                elif kd == "gather":                  # an indexed (sparse) contribution of the array's own shape
+                    ts.append(a[gidx])
+                elif kd == "full-slice":
                     ts.append(a[:])
                 elif kd == "ellipsis":
                     ts.append(a[...])
@@ -268,13 +276,19 @@ def main():
             return anp.sum(acc)
         exp = onp.zeros(shape)
         for kd in kinds:
-            exp = exp + (W if kd == "scaled" else 2 * A if kd == "square" else onp.ones(shape))
+            if kd == "gather":
+                onp.add.at(exp, gidx, onp.ones(shape))
+            elif kd not in ("zero", "masked-off"):
+                exp = exp + (W if kd == "scaled" else 2 * A if kd == "square" else onp.ones(shape))
         try:
             gr = grad(f)(A)
             ok = onp.shape(gr) == shape and bool(onp.all(gr == exp))
             # represent it to the model as dense uses with these weights (identity selection)
+            lab2 = onp.arange(n).reshape(shape)
             uses = [{"dense": [int(t) for t in (W if kd == "scaled" else 2 * A if kd == "square" else onp.ones(shape)).ravel()]}
                     if kd in ("dense", "scaled", "square") else
+                    {"dense": [0] * n} if kd in ("zero", "masked-off") else
+                    {"sigma": [int(t) for t in lab2[gidx].ravel()], "w": [1] * n} if kd == "gather" else
                     {"sigma": list(range(n)), "w": [1] * n} for kd in kinds]
             out["progs"].append({"n": n, "uses": uses, "grad": [int(t) for t in onp.asarray(gr).ravel()], "ok": bool(ok),
                                  "order": "+".join(kinds)})
